@@ -747,7 +747,13 @@ def round_value(interp, x, p, node=None):
         x = int(x)
     if p is None:
         p = 0
+    if isinstance(p, bool):
+        p = int(p)
     if not isinstance(p, int):
+        if is_symnum(p) and (is_num(x)):
+            # rounding to a precision that is only known symbolically (display precisions picked by an alternative
+            # unit): the result is some real number — over-approximation, only used for instruction text
+            return fresh('rnd', RS)
         raise Unsupported("symbolic rounding precision")
     if is_conc_num(x):
         if isinstance(x, float):
@@ -1177,7 +1183,7 @@ def _s_join(interp, args, kwargs, node):
             parts.append(x)
         elif isinstance(x, NameV):
             parts.append(SegStr([OpaqueHole(x)]))
-        elif isinstance(x, Opaque):
+        elif isinstance(x, (Opaque, IteV)):
             parts.append(SegStr([OpaqueHole('item')]))
         else:
             raise Raised('TypeError', getattr(node, 'lineno', None), 'sequence item: expected str instance', implicit=True)
